@@ -102,6 +102,13 @@ pub enum Op {
         idx: u16,
         d: i32,
     },
+    /// `[\global]\multiply\count<i> by <k> ` or `\divide`; a no-op if the result would overflow or k = 0.
+    Scale {
+        g: bool,
+        idx: u16,
+        mul: bool,
+        k: i32,
+    },
     /// `\advance` through an alias; a no-op if the name is not a count alias.
     AdvanceViaAlias {
         g: bool,
